@@ -53,6 +53,13 @@ theorem pointer_fields_covered :
     pointerFieldsOk Gen.C08.printer Expect.C08.printer = true := by
   decide +kernel
 
+/-- `Parser.Incomplete()` reads exactly `openNodes` and `litBs` (writes nothing, calls nothing);
+    both are reset by reset() and are listed with their idle invariant, which the harness probes on
+    the real parser after every statement and every line (A0/A2 streams, legs inter/incl). -/
+theorem incomplete_depends_on_probed_fields :
+    incompleteFieldsOk Gen.C08.parser Expect.C08.parser Expect.C08.parserInvariants = true := by
+  decide +kernel
+
 /-- Option functions write configuration fields (or fields every entry point re-initialises). -/
 theorem options_write_config_only :
     optionsWriteConfigOnly Gen.C08.parser Expect.C08.parser = true ∧
